@@ -31,7 +31,7 @@ def main():
   os.makedirs(out)
   try:
     subprocess.check_call(['git', '-C', '/repo', 'worktree', 'add', '--detach', '-q', wt])
-    subprocess.check_call(['git', '-C', wt, 'apply', patch])
+    subprocess.check_call(['git', '-C', wt, 'apply', '--3way', patch])
     env = dict(os.environ, VERIF_REPO=wt, VERIF_OUT_DIR=out)
     results = {}
     for p in props:
